@@ -243,11 +243,13 @@ def evalMon (cfg : Cfg) (name : String) (tr : List Item) : Option Bool :=
   | "c02-no-overlap" => some (Afkak.Monitor.C02.noOverlapOk tr)
   | "c02-single-fetch" => some (Afkak.Monitor.C02.singleFetchOk tr)
   | "c02-faithful" => some (Afkak.Monitor.C02.payloadOk tr)
+  | "c02-prompt" => some (Afkak.Monitor.C02.promptOk tr)
   | "c03-commit-le-processed" => some (Afkak.Monitor.C03.commitLeProcessedOk tr)
   | "c03-one-in-flight" => some (Afkak.Monitor.C03.oneInFlightOk tr)
   | "c03-committed-acked" => some (Afkak.Monitor.C03.committedAckedOk tr)
   | "c03-resume" => some (Afkak.Monitor.C03.resumeOk tr)
   | "c03-failure-stops" => some (Afkak.Monitor.C03.failureStopsOk tr)
+  | "c03-commit-reports" => some (Afkak.Monitor.C03.commitReportsOk tr)
   | "c13-start-once" => some (Afkak.Monitor.C13.startOnceOk tr)
   | "c13-quiescent" => some (Afkak.Monitor.C13.quiescentOk tr)
   | "c13-shutdown" => some (Afkak.Monitor.C13.shutdownOk cfg.group tr)
@@ -256,7 +258,7 @@ def evalMon (cfg : Cfg) (name : String) (tr : List Item) : Option Bool :=
   | "c14-reset" => some (Afkak.Monitor.C14.resetOk cfg.reset tr)
   | "c14-growth" => some (Afkak.Monitor.C14.growthOk cfg.bufInit cfg.bufMax tr)
   | "c14-never-skips" => some (Afkak.Monitor.C14.neverSkipsOk tr)
-  | "c14-attempts" => some (Afkak.Monitor.C14.attemptsOk cfg.maxAttempts tr)
+  | "c14-attempts" => some (Afkak.Monitor.C14.attemptsOk cfg.maxAttempts cfg.reset tr)
   | _ => none
 
 def step (d : DSt) (line : String) : DSt × List String :=
@@ -289,6 +291,10 @@ def step (d : DSt) (line : String) : DSt × List String :=
   | ["mon-nogap", log] =>
     match parseMsgs log with
     | some l => (d, [if Afkak.Monitor.C02.noGapOk l d.impl.reverse then "ok" else "fail"])
+    | none => (d, ["bad-op"])
+  | ["mon-complete", log] =>
+    match parseMsgs log with
+    | some l => (d, [if Afkak.Monitor.C02.completeOk l d.impl.reverse then "ok" else "fail"])
     | none => (d, ["bad-op"])
   | ["mon-model", name] =>
     match evalMon d.cfg name d.st.out.reverse with
